@@ -348,9 +348,15 @@ def finish(rep, build, level='proof', rule='', assumptions=None, technique_note=
 
     exit_code = 0
     lines = []
+    global DEFERRED
+    if SEARCH_MODE and not rep.oracle_failures:
+        # widened search run (see ./check): nothing new found on this seed
+        cleanup_scratch()
+        return 0
     known = [k for k in load_known() if k.get('property') == pid and k.get('status', 'open') == 'open']
     for k in rep.known_hits:
-        lines.append(f'KNOWN-FINDING: property={pid} {k}')
+        if not SEARCH_MODE:
+            lines.append(f'KNOWN-FINDING: property={pid} {k}')
     if rep.oracle_failures:
         path = write_replay(pid, rep.seed, {'kind': 'oracle-failure', 'property': pid,
                                             'failures': rep.oracle_failures[:5]})
@@ -368,7 +374,9 @@ def finish(rep, build, level='proof', rule='', assumptions=None, technique_note=
                 'coqc_output_tail': proof_out[-3000:], 'build_log_tail': build.log[-3000:]}
         path = write_replay(pid, rep.seed, {'kind': 'no-failing-input-found', 'property': pid,
                                             'no_longer_checks': why})
-        lines.append(f'VIOLATION property={pid} replay={path} no-failing-input-found')
+        # a proof obligation or the correspondence broke and this run has no concrete failing input: the line is
+        # deferred so that ./check can first search further seeds for one (it prints the line if none turns up)
+        DEFERRED = f'VIOLATION property={pid} replay={path} no-failing-input-found'
         exit_code = 1
 
     level = LEVELS.get(pid, level)
@@ -415,6 +423,8 @@ def finish(rep, build, level='proof', rule='', assumptions=None, technique_note=
 # claimed level per property (kept in step with tools/mkmanifest.py): a property is claimed at proof level only
 # when coq/props/<id>.v states theorems about it
 LEVELS = {}
+SEARCH_MODE = False     # set by ./check while it searches further seeds for a concrete failing input
+DEFERRED = None         # the no-failing-input-found line of the first run, printed by ./check after the search
 
 
 def rng_for(seed, pid):
